@@ -66,5 +66,9 @@ func (r reader) ReadHeader() (h FormatHeader, err error) {
 		return
 	}
 	h.Type, err = r.ReadUint64()
+	if err == io.EOF {
+		// The stream ends in the middle of the header, not between two elements
+		err = io.ErrUnexpectedEOF
+	}
 	return
 }
